@@ -1711,7 +1711,9 @@ class SequenceOfAndSetOfBase(base.ConstructedAsn1Type):
             raise ValueError(sys.exc_info()[1])
 
     def reverse(self):
-        self._componentValues.reverse()
+        # components are kept in a dict keyed by position
+        self._componentValues = dict(
+            enumerate(reversed(self.components)))
 
     def sort(self, key=None, reverse=False):
         self._componentValues = dict(
